@@ -20,13 +20,13 @@ import (
 
 // Entry points through which the same operation can be requested.
 const (
-	epLib      = "lib"       // gobl.Envelope method
-	epLibSig   = "libsig"    // Envelope.VerifySignature
-	epCLI      = "cli"       // internal/cli function over a simulated reader
-	epBulk     = "bulk"      // one-request cli.Bulk stream
-	epHTTP     = "http"      // HTTP handler (echo, httptest, no socket)
-	epHTTPBulk = "httpbulk"  // HTTP /bulk handler
-	epCobra    = "cobra"     // cobra command with simulated stdin/stdout
+	epLib      = "lib"      // gobl.Envelope method
+	epLibSig   = "libsig"   // Envelope.VerifySignature
+	epCLI      = "cli"      // internal/cli function over a simulated reader
+	epBulk     = "bulk"     // one-request cli.Bulk stream
+	epHTTP     = "http"     // HTTP handler (echo, httptest, no socket)
+	epHTTPBulk = "httpbulk" // HTTP /bulk handler
+	epCobra    = "cobra"    // cobra command with simulated stdin/stdout
 )
 
 var verifyEPs = []string{epLib, epLibSig, epCLI, epBulk, epHTTP, epHTTPBulk, epCobra}
@@ -104,6 +104,17 @@ func verifyVia(x *X, ep string, env *gobl.Envelope, keyIdx int, chunk int) (ok b
 	var pub *dsig.PublicKey
 	pubJSON := ""
 	switch {
+	case keyIdx >= 300:
+		// a nil key handed to the library
+		pub = nil
+		pubJSON = "null"
+	case keyIdx >= 200:
+		// a valid public key without a key id
+		pubJSON = PubKeyNoKidJSON(keyIdx - 200)
+		pub = new(dsig.PublicKey)
+		if err := json.Unmarshal([]byte(pubJSON), pub); err != nil {
+			return false, "harness: " + err.Error(), false
+		}
 	case keyIdx >= 100:
 		// an impostor: other key material under the signer's key id
 		pubJSON = ImpostorPubJSON((keyIdx-100)/10, (keyIdx-100)%10)
@@ -124,7 +135,7 @@ func verifyVia(x *X, ep string, env *gobl.Envelope, keyIdx int, chunk int) (ok b
 	switch ep {
 	case epLib:
 		var err error
-		if pub != nil {
+		if pub != nil || keyIdx >= 300 {
 			err = env.Verify(pub)
 		} else {
 			err = env.Verify()
@@ -136,7 +147,7 @@ func verifyVia(x *X, ep string, env *gobl.Envelope, keyIdx int, chunk int) (ok b
 		}
 		var err error
 		for _, s := range env.Signatures {
-			if pub != nil {
+			if pub != nil || keyIdx >= 300 {
 				err = env.VerifySignature(s, pub)
 			} else {
 				err = env.VerifySignature(s)
